@@ -32,7 +32,7 @@ PLANS = {
             'thorough': [('seq', 80000), ('threads_toggle', 50000),
                          ('sweep', 282), ('threads_mirror', 20000)]},
 }
-CAT_SIZE = {'quick': 1000, 'thorough': 3500}
+CAT_SIZE = {'quick': 1100, 'thorough': 3500}
 
 CATALOGUE = {}
 PRISTINE = {}
